@@ -14,11 +14,16 @@
 (*  "perm"  a sort function: the observed list must be a permutation of    *)
 (*          the input list, non-decreasing under JCmp, ties in arrival     *)
 (*          order                                                          *)
+(*  "axioms" the observed answers of <= and < on every ordered pair of a   *)
+(*          universe, with the order `sort` and --sort-by give it: <= is a *)
+(*          total preorder, < its strict part, both sorts are              *)
+(*          non-decreasing under it, --sort-by keeps ties in arrival order *)
 (***************************************************************************)
 EXTENDS TraceLib, Expr
 
 VARIABLE l
-Ctx(r) == [input |-> r.ctx.input, parents |-> r.ctx.parents, vars |-> r.ctx.vars, macros |-> r.ctx.macros, results |-> r.ctx.results]
+Ctx(r) == [input |-> r.ctx.input, parents |-> r.ctx.parents, vars |-> r.ctx.vars, macros |-> r.ctx.macros, results |-> r.ctx.results,
+           re |-> IF "re" \in DOMAIN r.ctx THEN r.ctx.re ELSE <<>>]
 Short(v) == IF v.t \in {"arr", "obj", "uobj"} THEN [t |-> v.t] ELSE v
 
 CheckDoc(r) == LET want == Eval(r.ast, Ctx(r)) IN
@@ -69,7 +74,26 @@ CheckPos(r) ==
 CheckBag(r) == IF r.out.t # "arr" \/ Len(r.out.a) # Len(r.inp) THEN Flag("MISMATCH", r.case, "not a permutation of the input")
                ELSE IF \E x \in Range(r.inp) : Cardinality({i \in 1..Len(r.inp) : r.inp[i] = x}) # Cardinality({i \in 1..Len(r.out.a) : r.out.a[i] = x})
                     THEN Flag("MISMATCH", r.case, "a value changed or was lost") ELSE TRUE
-Check(r) == CASE r.kind = "pos" -> CheckPos(r) [] r.kind = "bag" -> CheckBag(r) [] r.kind = "doc" -> CheckDoc(r) [] r.kind = "eval" -> CheckEval(r) [] r.kind = "same" -> CheckSame(r) [] r.kind = "perm" -> CheckPerm(r)
+\* "one total order", stated on the comparisons the code itself makes (so it also covers pairs whose order the documentation leaves open, like
+\* two different objects): le[a][b] is the observed value of (<= Ua Ub) on a universe of n values; lt likewise for <; sorted / sortedBy: the
+\* universe positions in the order `sort` and --sort-by (input in universe order) put them
+CheckAxioms(r) ==
+  LET n == r.n
+      le(a, b) == r.le[a][b]
+      lt(a, b) == r.lt[a][b] IN
+  IF \E a \in 1..n : ~le(a, a) THEN Flag("MISMATCH", r.case, <<"<= is not reflexive at universe position", CHOOSE a \in 1..n : ~le(a, a)>>)
+  ELSE IF \E a, b \in 1..n : ~le(a, b) /\ ~le(b, a) THEN Flag("MISMATCH", r.case, <<"<= is not total", CHOOSE p \in (1..n) \X (1..n) : ~le(p[1], p[2]) /\ ~le(p[2], p[1])>>)
+  ELSE IF \E a, b, c \in 1..n : le(a, b) /\ le(b, c) /\ ~le(a, c)
+       THEN Flag("MISMATCH", r.case, <<"<= is not transitive", CHOOSE t \in (1..n) \X (1..n) \X (1..n) : le(t[1], t[2]) /\ le(t[2], t[3]) /\ ~le(t[1], t[3])>>)
+  ELSE IF \E a, b \in 1..n : lt(a, b) # ~le(b, a) THEN Flag("MISMATCH", r.case, <<"< is not the strict part of <=", CHOOSE p \in (1..n) \X (1..n) : lt(p[1], p[2]) # ~le(p[2], p[1])>>)
+  ELSE IF Len(r.sorted) # n \/ {r.sorted[k] : k \in 1..Len(r.sorted)} # 1..n THEN Flag("MISMATCH", r.case, "sort did not return a permutation of the universe")
+  ELSE IF \E k \in 1..(n - 1) : ~le(r.sorted[k], r.sorted[k + 1]) THEN Flag("MISMATCH", r.case, <<"sort is not non-decreasing under <= at result position", CHOOSE k \in 1..(n - 1) : ~le(r.sorted[k], r.sorted[k + 1])>>)
+  ELSE IF Len(r.sortedBy) # n \/ {r.sortedBy[k] : k \in 1..Len(r.sortedBy)} # 1..n THEN Flag("MISMATCH", r.case, "--sort-by did not return a permutation of the rows")
+  ELSE IF \E k \in 1..(n - 1) : ~le(r.sortedBy[k], r.sortedBy[k + 1]) THEN Flag("MISMATCH", r.case, <<"--sort-by is not non-decreasing under <= at row", CHOOSE k \in 1..(n - 1) : ~le(r.sortedBy[k], r.sortedBy[k + 1])>>)
+  ELSE IF \E k \in 1..(n - 1) : le(r.sortedBy[k + 1], r.sortedBy[k]) /\ r.sortedBy[k] > r.sortedBy[k + 1]
+       THEN Flag("MISMATCH", r.case, <<"--sort-by: ties are not in arrival order at row", CHOOSE k \in 1..(n - 1) : le(r.sortedBy[k + 1], r.sortedBy[k]) /\ r.sortedBy[k] > r.sortedBy[k + 1]>>)
+  ELSE TRUE
+Check(r) == CASE r.kind = "axioms" -> CheckAxioms(r) [] r.kind = "pos" -> CheckPos(r) [] r.kind = "bag" -> CheckBag(r) [] r.kind = "doc" -> CheckDoc(r) [] r.kind = "eval" -> CheckEval(r) [] r.kind = "same" -> CheckSame(r) [] r.kind = "perm" -> CheckPerm(r)
 Init == l = 1
 Next == l <= Len(Rec) /\ l' = l + 1 /\ Check(Rec[l])
 Spec == Init /\ [][Next]_l
